@@ -297,6 +297,90 @@ fn check(c: &Case, clean: &[String]) -> Result<u64, String> {
     Ok(vcheck::fp(&(h1, real.errs)))
 }
 
+// ---- the building blocks' failability policies ---------------------------------------------
+
+struct Feed;
+impl Module for Feed {
+    fn at_sim_start(&mut self, _: usize) {
+        for k in 1..=3u64 {
+            for g in ["o1", "o2", "o3"] {
+                send_in(Message::default().id(k as u16), g, Duration::from_secs(k));
+            }
+        }
+    }
+}
+
+/// HandlerFn / ModuleFn whose handler fails on the message with id 2, under the three policies:
+/// Panic = the module panics (deactivated, named by run()), Continue = nothing else happens,
+/// Restart = the module restarts (its state is generated anew).
+fn run_policies() -> Result<u64, String> {
+    use des::net::blocks::{FailabilityPolicy, HandlerFn, ModuleFn};
+    let log: Log = Default::default();
+    let l2 = log.clone();
+    let errs = quiet_catch(move || {
+        let log = l2;
+        let fail_on_two = |who: &'static str, log: Log| {
+            move |m: Message| -> Result<(), std::io::Error> {
+                lg(&log, format!("{who}:msg{}", m.header().id));
+                if m.header().id == 2 {
+                    return Err(std::io::Error::other("handler failed"));
+                }
+                Ok(())
+            }
+        };
+        let mut sim = Sim::new(());
+        sim.node("feed", Feed);
+        sim.node("hp", HandlerFn::failable(fail_on_two("hp", log.clone()), FailabilityPolicy::Panic));
+        sim.node("hc", HandlerFn::failable(fail_on_two("hc", log.clone()), FailabilityPolicy::Continue));
+        let (lg1, lg2) = (log.clone(), log.clone());
+        sim.node(
+            "mr",
+            ModuleFn::failable(
+                move || {
+                    lg(&lg1, "mr:gen".into());
+                    0u32
+                },
+                move |seen: &mut u32, m: Message| -> Result<(), std::io::Error> {
+                    *seen += 1;
+                    lg(&lg2, format!("mr:msg{}:seen{}", m.header().id, *seen));
+                    if m.header().id == 2 {
+                        return Err(std::io::Error::other("handler failed"));
+                    }
+                    Ok(())
+                },
+                FailabilityPolicy::Restart,
+            ),
+        );
+        sim.gate("feed", "o1").connect(sim.gate("hp", "in"), None);
+        sim.gate("feed", "o2").connect(sim.gate("hc", "in"), None);
+        sim.gate("feed", "o3").connect(sim.gate("mr", "in"), None);
+        let r = Builder::seeded(1).quiet().max_time(10.0.into()).build(sim.freeze()).run();
+        match r {
+            Ok(_) => vec![],
+            Err(e) => e.iter().map(|x| x.to_string()).collect::<Vec<_>>(),
+        }
+    })
+    .map_err(|m| format!("a failing handler made run() panic: {m}"))?;
+    let got = log.lock().unwrap().clone();
+    let of = |p: &str| -> Vec<String> { got.iter().filter(|e| e.starts_with(p)).cloned().collect() };
+    let exp_hp = vec!["hp:msg1@1000", "hp:msg2@2000"];
+    let exp_hc = vec!["hc:msg1@1000", "hc:msg2@2000", "hc:msg3@3000"];
+    let exp_mr = vec!["mr:gen@0", "mr:msg1:seen1@1000", "mr:msg2:seen2@2000", "mr:gen@2000", "mr:msg3:seen1@3000"];
+    if of("hp:") != exp_hp {
+        return Err(format!("HandlerFn with policy Panic: log {:?}, expected {exp_hp:?} (the module is deactivated by its panic)", of("hp:")));
+    }
+    if of("hc:") != exp_hc {
+        return Err(format!("HandlerFn with policy Continue: log {:?}, expected {exp_hc:?}", of("hc:")));
+    }
+    if of("mr:") != exp_mr {
+        return Err(format!("ModuleFn with policy Restart: log {:?}, expected {exp_mr:?} (restart in the instant of the failure, state generated anew)", of("mr:")));
+    }
+    if errs.len() != 1 || !errs[0].contains("hp") {
+        return Err(format!("run() must report exactly the module whose policy is Panic, reported {errs:?}"));
+    }
+    Ok(vcheck::fp(&got))
+}
+
 const CLEAN: Case = Case { f: Where::None, cf: false, g: Where::None, cg: false, h: Where::None, ch: false };
 
 impl Property for C13 {
@@ -311,7 +395,7 @@ impl Property for C13 {
         format!(
             "5 modules (a -> b and h -> b direct, f -> b and g -> b over latency channels, every module with periodic self messages and a timer task); fault = panic in {:?} of f and/or g (every single placement, every pair and every triple with h; thorough: three more message occurrences), each module with a catching or non-catching stereotype; \
              oracle: run() returns, the healthy modules' complete traces equal those of the real run in which the faulty module calls shutdown() at the same point, the faulty module is not activated after a callback panic, the error lists exactly the panicking non-catching modules, and a clean follow-up simulation in the same process reproduces the clean trace; \
-             every placement is distinct; non-trivial = at least one fault",
+             plus one run of HandlerFn / ModuleFn nodes whose handler returns an error under the policies Panic (module panics: deactivated, named by run()), Continue and Restart (state generated anew); every placement is distinct; non-trivial = at least one fault",
             &PLACES[1..]
         )
     }
@@ -322,13 +406,21 @@ impl Property for C13 {
         ]
     }
     fn required_features(&self, _tier: Tier) -> Vec<&'static str> {
-        vec!["single_fault", "two_faulty_modules", "three_faulty_modules", "catching_stereotype", "fault_in_start_stage", "fault_in_teardown", "fault_in_joined_task", "fault_in_nth_message", "joined_task_panic_then_shutdown_of_the_module", "fault_in_start_stage_of_a_restart", "fault_in_teardown_of_a_shut_down_module"]
+        vec!["single_fault", "two_faulty_modules", "three_faulty_modules", "catching_stereotype", "fault_in_start_stage", "fault_in_teardown", "fault_in_joined_task", "fault_in_nth_message", "joined_task_panic_then_shutdown_of_the_module", "fault_in_start_stage_of_a_restart", "fault_in_teardown_of_a_shut_down_module", "building_block_failability_policies"]
     }
     fn explore(&self, ctx: &mut Ctx) {
         let clean = run(&CLEAN, false);
         if clean.aborted || !clean.errs.is_empty() {
             ctx.out.capped.push(format!("MACHINERY: clean baseline failed: {:?}", clean.errs));
             return;
+        }
+        if ctx.is_first_shard() {
+            ctx.out.evaluations += 1;
+            ctx.hit("building_block_failability_policies");
+            match run_policies() {
+                Ok(o) => ctx.outcome(o),
+                Err(d) => ctx.violation("violation", || json!({"probe": "failability_policies"}), d),
+            }
         }
         let places: Vec<Where> = if ctx.tier == Tier::Thorough {
             let mut p = PLACES.to_vec();
@@ -406,6 +498,9 @@ impl Property for C13 {
         }
     }
     fn replay(&self, case: &Value) -> Result<(), String> {
+        if case.get("probe").and_then(Value::as_str) == Some("failability_policies") {
+            return run_policies().map(|_| ());
+        }
         let clean = run(&CLEAN, false);
         check(&case_from(case), &clean.log).map(|_| ())
     }
